@@ -57,6 +57,23 @@ def make_case(r, big=False):
                                'big': big}
 
 
+def make_par_case(r):
+    """ddmin takes its parallel path only while there are more than 2*jobs
+    subsets: many small commands, a few scattered ones have to stay."""
+    n = r.choice([24, 32, 48])
+    keep = sorted(r.sample(range(n), r.randint(3, 5)))
+    lines = [f'(assert (f{i} a{i} (g{i} b{i})))' for i in range(n)]
+    text = '\n'.join(lines) + '\n(check-sat)\n'
+    pred = ' '.join(f'has:f{i}' for i in keep) + ' &' * (len(keep) - 1)
+    rules = realrun.simple_spec(pred)
+    j = r.choice([2, 2, 3])
+    opts = ['--strategy', r.choice(['ddmin', 'ddmin', 'hybrid']), '-j',
+            str(j), '--timeout', '20']
+    return text, rules, opts, {'input': text, 'rules': rules,
+                               'predicate': pred, 'strategy': opts[1],
+                               'jobs': j, 'big': False, 'parallel_ddmin': True}
+
+
 def accepted_tds(run):
     if not run.cmdlog:
         return set()
@@ -281,6 +298,8 @@ def prompt_write_run(res, wd, case):
                             launcher={'monitors': ['write', 'adopt']})
     res.count('evaluations')
     res.count('prompt_write_runs')
+    if desc.get('parallel_ddmin'):
+        res.count('prompt_write_runs_parallel_ddmin')
     if run.timed_out or run.rc != 0:
         res.count('prompt_write_runs_failed')
         return
@@ -435,6 +454,10 @@ def shard(args):
             if i % args.get('strace_every', 3) == 0 and not case[3]['big']:
                 wd = os.path.join(base, f'st{i}')
                 strace_run(res, wd, case)
+                shutil.rmtree(wd, ignore_errors=True)
+            if i == 0 and args['shard'] % 2 == 0:
+                wd = os.path.join(base, f'par{i}')
+                prompt_write_run(res, wd, make_par_case(r))
                 shutil.rmtree(wd, ignore_errors=True)
             res.count('cases')
             if i < 1:
